@@ -138,12 +138,14 @@ def opm_group(fmt_fixed, kep_fixed, tier="quick"):
         fmt = fmt_fixed
         ctx = choice("context", 3)                      # (time scale, frame) vary together
         scale, frame = SCALES[ctx], FRAMES[ctx]
-        if tier == "quick":                              # quick: 3 covariance frames, 0 or 2 user-defined parameters
+        # the XML reader has one branch for a single USER_DEFINED entry, one for the second (list creation) and one for the
+        # third and later ones (append): 3 entries go through all of them
+        if tier == "quick":                              # quick: 3 covariance frames, 0 or 3 user-defined parameters
             covf = COV_FRAMES[choice("cov", 4)]
-            ud = 2 * choice("user_defined", 2)
+            ud = 3 * choice("user_defined", 2)
         else:
             covf = COV_FRAMES[choice("cov", 5)]
-            ud = choice("user_defined", 3)               # 0, 1 or 2 user-defined parameters
+            ud = choice("user_defined", 4)               # 0, 1, 2 or 3 user-defined parameters
         kep = kep_fixed
         nman = choice("nman", 3)
         sv = _mk_sv(frame, scale)
@@ -163,7 +165,7 @@ def opm_group(fmt_fixed, kep_fixed, tier="quick"):
                 mans.append(ContinuousMan(md, datetime.timedelta(seconds=120.5 + k), dv=dv, frame=mf, comment=com, date_pos=pos))
         sv.maneuvers = mans
         _attach_cov(sv, covf)
-        UD = {0: None, 1: {"FOO": "bar"}, 2: {"FOO": "bar", "ANSWER": "42"}}[ud]
+        UD = {0: None, 1: {"FOO": "bar"}, 2: {"FOO": "bar", "ANSWER": "42"}, 3: {"FOO": "bar", "ANSWER": "42", "THIRD": "x y"}}[ud]
         if UD:
             sv._data["ccsds_user_defined"] = dict(UD)
         cfg = dict(fmt=fmt, scale=scale, frame=frame, cov=covf, user_defined=ud, kep=kep, mans=[type(m).__name__[0] + str(m.frame) + (getattr(m, "date_pos", "") or "") for m in mans])
@@ -261,7 +263,7 @@ def omm_group():
     def body():
         fmt = ["kvn", "xml"][choice("fmt", 2)]
         covf = [None, "same"][choice("cov", 2)]
-        ud = choice("user_defined", 3)
+        ud = choice("user_defined", 4)
         which = choice("tle", 3)
         lines = ["ISS (ZARYA)\n1 25544U 98067A   08264.51782528 -.00002182  00000-0 -11606-4 0  2927\n"
                  "2 25544  51.6416 247.4627 0006703 130.5360 325.0288 15.72125391563537",
@@ -272,7 +274,7 @@ def omm_group():
                                        "2 25544  51.6416 247.4627 0006703 130.5360 325.0288 16.1212539156353")][which]
         orb = Tle(lines).orbit()
         _attach_cov(orb, covf)
-        UD = {0: None, 1: {"FOO": "bar"}, 2: {"FOO": "bar", "ANSWER": "42"}}[ud]
+        UD = {0: None, 1: {"FOO": "bar"}, 2: {"FOO": "bar", "ANSWER": "42"}, 3: {"FOO": "bar", "ANSWER": "42", "THIRD": "x y"}}[ud]
         if UD:
             orb._data["ccsds_user_defined"] = dict(UD)
         cfg = dict(fmt=fmt, cov=covf, user_defined=ud, tle=which)
